@@ -592,6 +592,53 @@ func c04Windows(c *core.Ctx) {
 		}
 		k.Count("vendor_id_x_vendor_type_pairs_swept", 1)
 	})
+	// DER-shaped bodies: RFC 7427 digital-signature AUTH data (length octet, AlgorithmIdentifier with absent / NULL /
+	// structured parameters, signature), X.509-looking CERT data; every octet of each template swept over small
+	// values, DER tags and long-form length markers, plus every prefix
+	c.Family("win-der", 8, func(k *core.Case) {
+		e := env(k)
+		algs := [][]byte{
+			{0x30, 0x0a, 0x06, 0x08, 0x2a, 0x86, 0x48, 0xce, 0x3d, 0x04, 0x03, 0x02},                                                 // ecdsa-with-SHA256, parameters absent
+			{0x30, 0x0d, 0x06, 0x09, 0x2a, 0x86, 0x48, 0x86, 0xf7, 0x0d, 0x01, 0x01, 0x0b, 0x05, 0x00},                               // sha256WithRSAEncryption, NULL parameters
+			{0x30, 0x0b, 0x06, 0x09, 0x2a, 0x86, 0x48, 0x86, 0xf7, 0x0d, 0x01, 0x01, 0x0a},                                           // RSASSA-PSS, parameters absent
+			{0x30, 0x12, 0x06, 0x09, 0x2a, 0x86, 0x48, 0x86, 0xf7, 0x0d, 0x01, 0x01, 0x0a, 0x30, 0x05, 0xa2, 0x03, 0x02, 0x01, 0x20}, // RSASSA-PSS with parameters
+			{0x30, 0x05, 0x06, 0x03, 0x2b, 0x65, 0x70},                                                                               // Ed25519
+			{0x30, 0x02, 0x06, 0x00}, // empty OID
+			{0x30, 0x00},             // empty sequence
+			{0x30, 0x81, 0x0a, 0x06, 0x08, 0x2a, 0x86, 0x48, 0xce, 0x3d, 0x04, 0x03, 0x02}, // long-form length
+		}
+		alg := algs[k.Index%len(algs)]
+		vals := []int{0, 1, 2, 3, 4, 5, 6, 0x0a, len(alg) - 2, len(alg), 0x30, 0x31, 0x7f, 0x80, 0x81, 0x82, 0x84, 0xff}
+		for _, method := range []byte{14, 1, 2, 9} {
+			for _, sigLen := range []int{0, 1, 8} {
+				base := append([]byte{method, 0, 0, 0, byte(len(alg))}, alg...)
+				base = append(base, k.R.Bytes(sigLen)...)
+				c04Body(k, e, abs.PAUTH, base, fmt.Sprintf("der/auth-method=%d/base", method), method == 14 && sigLen == 8)
+				for cut := 0; cut < len(base); cut++ {
+					c04Body(k, e, abs.PAUTH, base[:cut], "der/auth-prefix", false)
+				}
+				if sigLen != 8 {
+					continue
+				}
+				for i := 4; i < len(base); i++ {
+					for _, v := range vals {
+						d := append([]byte{}, base...)
+						d[i] = byte(v)
+						c04Body(k, e, abs.PAUTH, d, fmt.Sprintf("der/auth-method=%d/oct%d", method, minI(i-4, 8)), false)
+					}
+				}
+			}
+		}
+		// CERT / CERTREQ with a DER SEQUENCE header
+		for _, enc := range []byte{4, 1, 7, 12} {
+			for _, hdr := range [][]byte{{0x30, 0x82, 0x00, 0x10}, {0x30, 0x10}, {0x30, 0x80}, {0x30, 0x84, 0xff, 0xff, 0xff, 0xff}, {0x30, 0x82, 0xff, 0xff}} {
+				body := append(append([]byte{enc}, hdr...), k.R.Bytes(16)...)
+				c04Body(k, e, abs.PCERT, body, fmt.Sprintf("der/cert-enc=%d", enc), false)
+				c04Body(k, e, abs.PCERTREQ, body, fmt.Sprintf("der/certreq-enc=%d", enc), false)
+			}
+		}
+		k.Count("der_shaped_bodies_swept", 1)
+	})
 	// text-shaped bodies: FQDN / RFC 822 / NAI edge cases under every ID type, as EAP identities and network names
 	c.Family("win-names", 64, func(k *core.Case) {
 		e := env(k)
@@ -1153,7 +1200,7 @@ func c04(c *core.Ctx) {
 		c.Count("hook_hits_"+s, int(atomic.LoadInt64(&siteHits[i])))
 	}
 	if variant() == "plain" {
-		c.Require("vendor_id_x_vendor_type_pairs_swept", "name_edge_cases_decoded", "one_key_object_served_all_datagrams", "nested_notify_types_swept", "nested_other_swept", "hook_hits_message.container.decode", "hook_hits_message.sa.proposal", "hook_hits_message.sa.transform", "hook_hits_message.delete.spi",
+		c.Require("der_shaped_bodies_swept", "vendor_id_x_vendor_type_pairs_swept", "name_edge_cases_decoded", "one_key_object_served_all_datagrams", "nested_notify_types_swept", "nested_other_swept", "hook_hits_message.container.decode", "hook_hits_message.sa.proposal", "hook_hits_message.sa.transform", "hook_hits_message.delete.spi",
 			"hook_hits_message.cp.attribute", "hook_hits_message.tsi.selector", "hook_hits_message.tsr.selector", "hook_hits_eap.akaprime.attribute", "hook_hits_ike.decrypt.verified")
 	}
 }
